@@ -167,18 +167,20 @@ Qed.
 Lemma iter_remove_none s it a : it_last it = 0 -> iter_remove s it a = Ok (CC_ERR_VALUE_NOT_FOUND, 0, s, it, a).
 Proof. intros H. unfold iter_remove. rewrite H. reflexivity. Qed.
 
-Lemma iter_add_spec s it done x d rest a F v :
-  lrep s (done ++ (x, d) :: rest) -> lown a s (done ++ (x, d) :: rest) F ->
-  it_pos it (done ++ [(x, d)]) rest -> it_last it = x ->
+(** [added]: nodes already inserted through the iterator since [x] was yielded (each add goes directly behind [x], so
+    the most recent one comes first). The new node becomes the tail exactly when nothing follows it. *)
+Lemma iter_add_spec s it done x d added rest a F v :
+  lrep s (done ++ (x, d) :: added ++ rest) -> lown a s (done ++ (x, d) :: added ++ rest) F ->
+  it_pos it (done ++ (x, d) :: added) rest -> it_last it = x ->
   match alloc (l_mem s) NODE_BYTES a with
   | (Some id, a1) => exists s' it', iter_add s it v a = Ok (CC_OK, s', it', a1) /\
-        lrep s' (done ++ (x, d) :: (id, v) :: rest) /\ lown a1 s' (done ++ (x, d) :: (id, v) :: rest) F /\
-        it_pos it' (done ++ [(x, d); (id, v)]) rest /\ it_last it' = x /\ same_hdr s s' /\ aframe a a1
-  | (None, a1) => iter_add s it v a = Ok (CC_ERR_ALLOC, s, it, a1) /\ lown a1 s (done ++ (x, d) :: rest) F /\ live a1 = live a /\
+        lrep s' (done ++ (x, d) :: (id, v) :: added ++ rest) /\ lown a1 s' (done ++ (x, d) :: (id, v) :: added ++ rest) F /\
+        it_pos it' (done ++ (x, d) :: (id, v) :: added) rest /\ it_last it' = x /\ same_hdr s s' /\ aframe a a1
+  | (None, a1) => iter_add s it v a = Ok (CC_ERR_ALLOC, s, it, a1) /\ lown a1 s (done ++ (x, d) :: added ++ rest) F /\ live a1 = live a /\
                   aframe a a1 /\ (plan a <> [] \/ limit a < NODE_BYTES)
   end.
 Proof.
-  intros R [Hk Ho] [Hn Hi] Hl. unfold iter_add.
+  intros R [Hk Ho] [Hn Hi] Hl. unfold iter_add. set (tl := added ++ rest) in *.
   destruct (alloc (l_mem s) NODE_BYTES a) as [[id|] a1] eqn:E.
   2:{ destruct (alloc_none _ _ _ _ E Hk) as (Hl1 & Hk1 & Hf & Hw). split; [reflexivity|].
       split; [split; [assumption|unfold owns; rewrite Hl1; exact Ho]|auto]. }
@@ -186,16 +188,20 @@ Proof.
   destruct (fresh_facts _ _ _ _ _ (conj Hk Ho) Hfr) as [Hni Hnh].
   pose proof (lrep_dom_fresh _ _ _ R Hni) as Hnone.
   set (h0 := hset (l_heap s) id (fresh_node v)).
-  assert (Hs0 : dseg h0 0 (done ++ (x, d) :: rest) 0).
+  assert (Hs0 : dseg h0 0 (done ++ (x, d) :: tl) 0).
   { eapply dseg_ext; [|exact (rep_seg _ _ R)]. intros y Hy. unfold h0. apply hget_hset_other. intros ->; contradiction. }
   rewrite Hl.
-  destruct (link_after_fresh h0 0 done x d rest id v (rep_nodup _ _ R) (rep_nz _ _ R) Hs0 Hid0 Hni (hget_hset_same _ _ _))
+  destruct (link_after_fresh h0 0 done x d tl id v (rep_nodup _ _ R) (rep_nz _ _ R) Hs0 Hid0 Hni (hget_hset_same _ _ _))
     as (h1 & E1 & Hs1 & Hdom1).
   rewrite E1. cbn [bind].
+  assert (Hnew : hget h1 id = Some {| n_data := v; n_prev := x; n_next := first_id tl 0 |}).
+  { change (done ++ (x, d) :: (id, v) :: tl) with (done ++ [(x, d)] ++ (id, v) :: tl) in Hs1. rewrite app_assoc in Hs1.
+    pose proof (dseg_mid _ _ _ _ _ _ _ Hs1) as H. rewrite last_id_snoc in H. exact H. }
+  rewrite (load_ok _ _ _ Hid0 Hnew). cbn [bind n_next].
   do 2 eexists. split; [reflexivity|].
-  assert (Hperm : Permutation (ids (done ++ (x, d) :: (id, v) :: rest)) (id :: ids (done ++ (x, d) :: rest))).
+  assert (Hperm : Permutation (ids (done ++ (x, d) :: (id, v) :: tl)) (id :: ids (done ++ (x, d) :: tl))).
   { rewrite !ids_app. cbn [ids map fst].
-    change (ids done ++ x :: id :: map fst rest) with (ids done ++ [x] ++ id :: map fst rest). rewrite app_assoc.
+    change (ids done ++ x :: id :: map fst tl) with (ids done ++ [x] ++ id :: map fst tl). rewrite app_assoc.
     eapply Permutation_trans; [apply Permutation_sym, Permutation_middle|]. rewrite <- app_assoc. reflexivity. }
   split; [|split; [split; [assumption|eapply owns_insert; eauto]|]].
   - constructor; cbn [upd l_heap l_head l_tail l_size l_hdr].
@@ -203,18 +209,18 @@ Proof.
     + intros H0. eapply Permutation_in in H0; [|exact Hperm]. destruct H0 as [H0|H0]; [congruence|exact (rep_nz _ _ R H0)].
     + exact Hs1.
     + rewrite (rep_head _ _ R), !first_id_app. reflexivity.
-    + rewrite !last_id_app. cbn [last_id]. rewrite Hi, (rep_size _ _ R), !lenN_app, !lenN_cons. cbn [lenN length N.of_nat].
-      destruct rest as [|[y dy] rt].
-      * cbn [lenN length N.of_nat last_id]. rewrite N.eqb_refl. reflexivity.
-      * replace (lenN done + (0 + 1) =? lenN done + (lenN ((y, dy) :: rt) + 1)) with false by (rewrite lenN_cons; lia).
-        rewrite (rep_tail _ _ R), !last_id_app. reflexivity.
+    + rewrite !last_id_app. cbn [last_id].
+      assert (Hnzt : ~ In 0 (ids tl)).
+      { intros H0. apply (rep_nz _ _ R). rewrite ids_app. apply in_or_app. right. right. exact H0. }
+      rewrite (first_nz tl Hnzt). destruct tl as [|[y dy] tt]; [reflexivity|].
+      rewrite (rep_tail _ _ R), !last_id_app. reflexivity.
     + rewrite (rep_size _ _ R), !lenN_app, !lenN_cons. lia.
     + intros y Hy. apply Hdom1 in Hy. unfold h0 in Hy.
       eapply Permutation_in; [apply Permutation_sym, Hperm|].
       destruct (N.eq_dec id y) as [<-|Hne2]; [left; reflexivity|]. right.
       rewrite hget_hset_other in Hy by assumption. apply (rep_dom _ _ R). exact Hy.
     + apply (rep_hdr _ _ R).
-  - split; [|auto]. constructor; cbn [it_next it_index]; [exact Hn|]. rewrite Hi, !lenN_app, !lenN_cons. cbn [lenN length N.of_nat]. lia.
+  - split; [|auto]. constructor; cbn [it_next it_index]; [exact Hn|]. rewrite Hi, !lenN_app, !lenN_cons. lia.
 Qed.
 
 (* ------------------------------------------------------------------------------------------ descending iterator *)
